@@ -852,7 +852,31 @@ def sym_range(*args):
     return builtins.range(*args)
 
 
-BUILTINS = dict(int=sym_int, float=sym_float, round=sym_round, abs=sym_abs, min=sym_min, max=sym_max)
+class _IntMeta(type):
+    def __instancecheck__(cls, o):
+        return isinstance(o, builtins.int) or (isinstance(o, SN) and o.is_int)
+
+    def __call__(cls, *a):
+        return sym_int(*a)
+
+
+class SymIntType(metaclass=_IntMeta):
+    """stands for the builtin `int` in patched modules: callable like int(), usable in isinstance()"""
+
+
+class _FloatMeta(type):
+    def __instancecheck__(cls, o):
+        return isinstance(o, builtins.float) or (isinstance(o, SN) and not o.is_int)
+
+    def __call__(cls, *a):
+        return sym_float(*a)
+
+
+class SymFloatType(metaclass=_FloatMeta):
+    """stands for the builtin `float` in patched modules"""
+
+
+BUILTINS = dict(int=SymIntType, float=SymFloatType, round=sym_round, abs=sym_abs, min=sym_min, max=sym_max)
 
 
 def token_value(x):
